@@ -2191,7 +2191,11 @@ lyd_dup_r(const struct lyd_node *node, const struct ly_ctx *trg_ctx, struct lyd_
             type = ((struct lysc_node_leaf *)term->schema)->type;
             ret = lyd_value_store(trg_ctx, &term->value, type, val_can, strlen(val_can), 1, 1, NULL, LY_VALUE_CANON, NULL,
                     LYD_HINT_DATA, term->schema, NULL);
-            LY_CHECK_GOTO(ret, error);
+            if (ret) {
+                /* nothing was stored (the type callback has released what it had created), nothing to free with the node */
+                memset(&term->value, 0, sizeof term->value);
+                goto error;
+            }
         }
     } else if (dup->schema->nodetype & LYD_NODE_INNER) {
         struct lyd_node_inner *orig = (struct lyd_node_inner *)node;
